@@ -359,5 +359,21 @@ def rule_kinds():
 _base_obligations = obligations
 
 
+def data_filter_leaves_operands_alone():
+    """the empty-DATA filter rewrites DATA items in place; an operand of a call that is spelled like a DATA item keeps its kind (with the
+    parser's one-node-per-occurrence obligation, shared with C04)"""
+    def run():
+        from coco.b09.compiler import convert
+        res = []
+        src = '10 SET(1,2,3):SOUND 255,3:A=3:POKE 3,255:PALETTE 3,255\n20 DATA 3,,255\n30 READ A$\n'
+        out = convert(src, add_standard_prefix=False)
+        for want in ("ecb_set(1.0, 2.0, 3.0)", "ecb_sound(255.0, 3.0,", "A := 3.0", "POKE 3.0, 255.0", "ecb_set_palette(3.0, 255.0,", 'DATA "3.0", "", "255.0"'):
+            res.append(ob("data-filter/operands keep their kind/%s" % want, want in out, "output contains %r" % want, out, src))
+        return res
+    from tx.p_c04 import parser_builds_a_tree
+    from tx.p_c05 import share
+    return guarded("data-filter", run) + share("tree/", parser_builds_a_tree())
+
+
 def obligations():  # noqa: F811
-    return _base_obligations() + rule_kinds()
+    return _base_obligations() + rule_kinds() + data_filter_leaves_operands_alone()
